@@ -21,6 +21,7 @@ SUBS = [
     dict(name="crc32c", quick=dict(cases=6000, shards=3), thorough=dict(cases=100000, shards=3)),
     dict(name="aes", quick=dict(cases=6000, shards=2), thorough=dict(cases=100000, shards=2)),
     dict(name="aesctr", quick=dict(cases=2500, shards=6), thorough=dict(cases=40000, shards=6)),
+    dict(name="giant", quick=dict(cases=1, shards=2), thorough=dict(cases=2, shards=6)),
 ]
 FILES = {"sha256.c", "sha256_shani.c", "sha256_sse2.c", "crc32c.c", "crc32c_sse42.c", "crypto_aes.c", "crypto_aes_aesni.c",
          "crypto_aesctr.c", "crypto_aesctr_aesni.c", "cpusupport_x86_aesni.c", "cpusupport_x86_shani.c", "cpusupport_x86_sse2.c",
